@@ -21,6 +21,41 @@ def restore_all(sess, desc):
             desc.append('final-restore(%s,%d)->%s' % (u, s, o.etype))
 
 
+def stale_knowledge(run, graphs, seeds):
+    """what a client has learned (its snapshot cache, anything it remembers) is made stale by ANOTHER client's delete / clean, then the
+    first client snapshots the very same data again: the new snapshot must be complete although "it has seen those chunks before"."""
+    from .. import harness, repodrv
+    traces = []
+    for g in graphs:
+        for seed in seeds:
+            for cache in ('__private__', '__shared__', None):
+                with harness.scratch() as d:
+                    c = str(d / 'shared-cache') if cache == '__shared__' else cache
+                    s = repodrv.Session(g, d, seed=seed, cache=c)
+                    r = s.rng
+                    content = repodrv.Content(r, nblocks=6)
+                    files = [s.write_file('k%d.bin' % i, content.make() + r.randbytes(200)) for i in range(3)]
+                    desc = []
+                    for owner in s.users:
+                        o = s.snapshot(owner, files)
+                        desc.append('snapshot(%s)->%s' % (owner, o.etype))
+                        for u in s.users:            # everybody looks (and caches what it can read)
+                            s.ls(u)
+                            if r.random() < 0.5:
+                                s.clean(u)
+                        mine = [x for x in s.readable(owner)]
+                        if mine:
+                            o = s.delete(owner, mine)
+                            desc.append('delete(%s,%s)->%s' % (owner, mine, o.etype))
+                        for u in s.users:            # ... and everybody snapshots the same data again
+                            o = s.snapshot(u, files)
+                            desc.append('snapshot-again(%s)->%s' % (u, o.etype))
+                    restore_all(s, desc)
+                    traces.append(s.trace(extra={'history': desc, 'opts': {'cache': cache}}))
+                    run.case(('stale', g, seed, cache))
+    return traces
+
+
 def main(run):
     quick = run.tier == 'quick'
     rc.design(run, ['mixed', 'shared'] if quick else ['plain', 'same', 'shared', 'indep', 'mixed'],
@@ -33,8 +68,9 @@ def main(run):
     traces = rc.histories(run, rc.ALL_GRAPHS, range(run.seed * 100, run.seed * 100 + (3 if quick else 40)), 14 if quick else 30, post=restore_all)
     traces += rc.histories(run, ['shared', 'mixed'], range(run.seed * 100 + 50, run.seed * 100 + (52 if quick else 70)), 12 if quick else 25,
                            flavour='async', concurrent=2, post=restore_all)
+    traces += stale_knowledge(run, ['shared', 'plain', 'mixed'] if quick else rc.ALL_GRAPHS, range(run.seed * 10, run.seed * 10 + (1 if quick else 4)))
     rc.validate(run, traces, CLAUSES, label='c02.histories')
-    run.coverage['rule'] = ('a case is one command history (key graph x seed) or one replayed TLC behaviour; non-trivial = '
+    run.coverage['rule'] = ('a case is one command history (key graph x seed), one stale-knowledge scenario (key graph x cache arrangement) or one replayed TLC behaviour; non-trivial = '
                             'more than 10 backend events / more than 2 replayed commands; distinct by the command sequence')
     run.assumptions += ['destructive commands are not overlapped with other commands (README)',
                         'projection by the independent codec rv/refcodec.py', 'MemBackend is a faithful object store (C13 checks the real adapters)']
